@@ -2,6 +2,7 @@ import FitModel.Value
 import Driver.ValCodec
 -- @family value Drv.hValue
 -- @family unm Drv.hUnm
+-- @family unmre Drv.hUnmRe
 -- @family vany Drv.hVany
 -- @family utf8 Drv.hUtf8
 /-! Handlers of the families `value` (ops value / unm / vany) and `utf8`; see harness/fam_value.go
@@ -111,6 +112,45 @@ def execUnm (args : List String) : String :=
       else printOutcome (unmarshal bs a bt (pb == "1") (arr == "1"))
     | _, _, _, _, _ => "bad-op"
   | _ => "bad-op"
+
+/-- `unmre`: unmarshal arbitrary bytes, marshal the value in byte order `a2`, unmarshal again under the same base type and
+flags — the very terms of `C06_unmarshal_reencode_partial` -/
+def execUnmRe (args : List String) : String :=
+  match args with
+  | [_, _, _, _, _, _] =>
+    match (kvArg args "b").bind unhex, kvByte args "a", kvByte args "a2", kvByte args "bt", kvArg args "pb", kvArg args "arr" with
+    | some bs, some a, some a2, some bt, some pb, some arr =>
+      if (pb != "0" ∧ pb != "1") ∨ (arr != "0" ∧ arr != "1") then "bad-op"
+      else
+        let first := unmarshal bs a bt (pb == "1") (arr == "1")
+        match first with
+        | .ok v =>
+          match marshal v a2 with
+          | none => printOutcome first ++ " m=err re=-"
+          | some m => printOutcome first ++ " m=" ++ hex m ++ " re=" ++ printOutcome (unmarshal m a2 bt (pb == "1") (arr == "1"))
+        | _ => printOutcome first ++ " m=- re=-"
+    | _, _, _, _, _, _ => "bad-op"
+  | _ => "bad-op"
+
+/-- the property on the implementation's answer (`C06_unmarshal_reencode_partial`; for the string base type the same
+statement, `C06_unmarshal_reencode_full`): whenever the first read returned a value, it could be marshalled and the second
+read returned that very value -/
+def propUnmRe (impl : String) : String :=
+  match impl.splitOn " " with
+  | [first, m, re] =>
+    if !first.startsWith "ok:" then "n/a"
+    else if m == "m=err" then "fail:returned-value-cannot-be-marshalled"
+    else if m == "m=overwritten" then "fail:marshal-overwrote-the-destination"
+    else if re != "re=" ++ first then "fail:reencoded-value-reads-back-differently"
+    else "ok"
+  | _ => if impl == "bad-op" then "n/a" else "fail:unparsable-answer"
+
+def hUnmRe : Handler := fun r =>
+  match r.mode with
+  | .model => execUnmRe r.args
+  | .spec => "n/a"
+  | .prop => propUnmRe r.impl
+  | .kf => "-"
 
 def execVany (args : List String) : String :=
   match args with
